@@ -5,6 +5,7 @@ import (
 	"fmt"
 	"math/rand/v2"
 	"sort"
+	"strings"
 	"time"
 
 	"github.com/twmb/franz-go/pkg/kmsg"
@@ -45,6 +46,17 @@ func w1GenProp(r *rand.Rand, c *simrt.Case, nclients, maxOps int, prop, tier str
 		if clean {
 			cfg["clean"] = 1
 		}
+		if r.IntN(3) == 0 {
+			// topics come into being with their first produce (auto-create), several clients at once,
+			// over a slow metadata store
+			cfg["precreate"] = 0
+			cfg["store_lat_us"] = pick[int64](r, 500, 5000, 30000)
+			if r.IntN(2) == 0 {
+				// one of the racing creations is much slower than everything else
+				c.Faults = append(c.Faults, simrt.Fault{Kind: "store.slow", Op: "store.CreateTopic", Nth: r.IntN(2), Arg: int64(20+r.IntN(400)) * 1e6})
+				c.Faults = append(c.Faults, simrt.Fault{Kind: "s3.slow", Op: "s3.put.segment", Nth: r.IntN(2), Arg: int64(20+r.IntN(400)) * 1e6})
+			}
+		}
 		for cl := 0; cl < nclients; cl++ {
 			n := 1 + r.IntN(maxOps)
 			for i := 0; i < n; i++ {
@@ -65,6 +77,18 @@ func w1GenProp(r *rand.Rand, c *simrt.Case, nclients, maxOps int, prop, tier str
 			w1S3WriteFaults(r, c, r.IntN(3))
 			if r.IntN(3) == 0 {
 				c.Faults = append(c.Faults, simrt.Fault{Kind: "crash", Key: "b0", Nth: 20 + r.IntN(200)})
+			}
+			if r.IntN(4) == 0 {
+				// an upload that leaves a segment without its index, then a restart, then more appends: the
+				// new incarnation must continue right behind what is readable
+				c.Faults = append(c.Faults, simrt.Fault{Kind: pick(r, "s3.fail_before", "s3.fail_before", "s3.fail_after"), Op: pick(r, "s3.put.index", "s3.put.index", "s3.put.segment"), Nth: r.IntN(4)})
+				for i := 0; i < 1+r.IntN(3); i++ {
+					c.Program = append(c.Program, simrt.Op{Actor: 0, Kind: "produce", B: 0, C: int64(1 + r.IntN(3)), D: -1})
+				}
+				c.Program = append(c.Program, simrt.Op{Actor: 0, Kind: "crash", A: 0})
+				for i := 0; i < 1+r.IntN(3); i++ {
+					c.Program = append(c.Program, simrt.Op{Actor: 0, Kind: "produce", B: 0, C: int64(1 + r.IntN(3)), D: -1})
+				}
 			}
 		}
 	case "C22":
@@ -278,6 +302,19 @@ func (w *w1) judgeOffsets() {
 					return
 				}
 				gap := a.r.base - (p.r.base + p.n)
+				if gap > 0 && p.r.inc != a.r.inc && !w.etcdMode() && !p.r.malformed && !a.r.malformed {
+					// the broker restarted between the two acknowledgements: nothing of the old incarnation
+					// is still buffered, so every offset it skipped must be in a completed segment (a stored
+					// but unacknowledged attempt); an offset that exists nowhere is a hole in the log
+					stored := w.storedOffsets(a.r.topic, a.r.part)
+					for o := p.r.base + p.n; o < a.r.base; o++ {
+						if !stored[o] {
+							w.sim.Fail("C02", "gap-after-restart", "%s: offset %d exists in no completed segment, although [%d,+%d) was acknowledged by %s before it and [%d,+%d) by %s after it", key, o, p.r.base, p.n, p.r.inc, a.r.base, a.n, a.r.inc)
+							return
+						}
+					}
+					w.sim.Probe("c02.gap-after-restart-explained")
+				}
 				if gap > 0 && w.cfg("clean", 0) == 1 && !anyFault {
 					w.sim.Fail("C02", "gap", "%s: %d unused offsets between acknowledged [%d,+%d)%s and [%d,+%d)%s in a fault-free run where every produce was acknowledged or rejected", key,
 						gap, p.r.base, p.n, mal(p.r), a.r.base, a.n, mal(a.r))
@@ -340,6 +377,26 @@ func (w *w1) knownLogStored(topic string, part int32) []logBatch {
 		for _, b := range w.segBatches(k, data) {
 			if r := byMarker[firstMarker(b)]; r != nil {
 				out = append(out, logBatch{base: b.BaseOffset, count: r.nrec, raw: r.sent, rec: r})
+			}
+		}
+	}
+	return out
+}
+
+// storedOffsets: every offset held by a completed segment (segment and index both present) of the partition.
+func (w *w1) storedOffsets(topic string, part int32) map[int64]bool {
+	out := map[int64]bool{}
+	for _, k := range w.s3.Keys(w.partPrefix(topic, part)) {
+		if !strings.HasSuffix(k, ".kfs") {
+			continue
+		}
+		if _, ok := w.s3.Peek(strings.TrimSuffix(k, ".kfs") + ".index"); !ok {
+			continue
+		}
+		data, _ := w.s3.Peek(k)
+		for _, b := range w.segBatches(k, data) {
+			for o := b.BaseOffset; o <= b.BaseOffset+int64(b.LastOffsetDelta); o++ {
+				out[o] = true
 			}
 		}
 	}
